@@ -5,7 +5,7 @@ from __future__ import annotations
 
 from sa.guards import CountResolver
 from sa.cfront import LIB_TUS
-from . import lib_guards, lib_module, lib_gate, lib_err, lib_file, lib_taint, lib_mem
+from . import lib_guards, lib_module, lib_gate, lib_err, lib_file, lib_taint, lib_mem, lib_stats, lib_schema
 
 LEVEL = "other"
 EXPLANATION = ("Static analysis of /repo's current C and Python source (clang type-checked AST, Python ast): "
@@ -31,6 +31,10 @@ def run(ctx):
     lib_file.offsets_cover(ctx, P)
     T = lib_taint.public_ids(ctx, P)
     lib_mem.sizeof_elements(ctx, P)
+    lib_mem.capacity(ctx, P)
+    lib_stats.early_exits(ctx, P)
+    from sa.schema import load_schemas
+    lib_schema.dict_interchange(ctx, P, load_schemas(P))
     lib_taint.length_pairing(ctx, P, T)
     ctx.assumptions += [
         "clang-14's AST reflects the code that setup.py compiles (same include paths, -std=c99)",
